@@ -10,8 +10,10 @@ namespace Corerad.Spec.C12
 
 open Corerad Corerad.Model
 
-def sec (d : Dur) : Dur := d - d % second
-def msec (d : Dur) : Dur := d - d % ms
+/-- what a lifetime / timer field carries: Go's truncation to the field unit (for the
+    non-negative durations of a wire-safe RA this is `d - d % unit`, see `Props.C12.sec_nonneg`) -/
+def sec (d : Dur) : Dur := truncateDur d second
+def msec (d : Dur) : Dur := truncateDur d ms
 
 /-- both specified (non-zero on the wire) and different -/
 def timerDiffers (a b : Dur) : Bool := msec a != 0 && msec b != 0 && msec a != msec b
